@@ -260,11 +260,13 @@ func runCase(r *mon.Run, idx int) {
 func Run(r *mon.Run) {
 	r.Rule = "each case: a fresh broker with operator channel capacity in {0,1,2,16,1024}, an output stream (unidirectional alone, with an input peer, or a bidirectional half) whose transport reader follows a PRNG script of reads (sizes 0..10000 incl. 2047/2048/2049, runs of zero-length reads, delays, terminal error EOF/unexpected EOF/closed pipe/custom/wrapped EOF alone or together with data) carrying position-coded bytes; the operator's terminal stalls on a PRNG schedule; optionally concurrent input traffic; ended by itself (natural) or by cancellation at a PRNG-chosen amount of progress. The displayed Plain chunks up to a marker line must be a prefix of the sent bytes, equal to all of them at a natural end, and none may follow the close notice. A case is non-trivial if it carried at least one byte; distinct = distinct (read script, capacity, kind, ending, stalls). " +
 		"Engine pty: the real binary on a pty, fake shells over raw TLS (chunked bodies) send numbered printable tokens in PRNG-sized writes; the de-escaped terminal text must show them once, in order, all of them before the close/gone notice when the stream ended by itself. " +
-		"Engine ptyb: the real binary on a pty, several shells one after the other per process, each shell's class fixed by its number: /i+/o or /io; chunked body or a body with a declared Content-Length (under 256 B, a few KiB, 64-300 KiB); a patient client (sends once the shell is reported ready) or an eager one (header and output at once, like curl -d @file); content = ASCII tokens, valid 2/3/4-byte UTF-8 characters, unfinished sequences, bytes that are never UTF-8 and arbitrary bytes (all values but ESC and CR), cut into TLS writes anywhere incl. inside a character and byte by byte; the stream ends by itself right after an unfinished multibyte sequence / after non-UTF-8 bytes / after a complete multibyte character / after ASCII, or the connection is dropped (for a declared length: before the promised length). The clean terminal text between the end of the callback help that follows the previous shell and this shell's first close/gone notice, minus the attach notices and the notice's own timestamp+address prefix, with CR LF read as LF, must equal the sent bytes exactly at a natural end and be a prefix of them after a drop; no token of the shell may appear after its notice. Bytes withheld from one shell's display would surface in the next shell's region and fail its comparison"
+		"Engine ptyb: the real binary on a pty, several shells one after the other per process, each shell's class fixed by its number: /i+/o or /io; chunked body or a body with a declared Content-Length (under 256 B, a few KiB, 64-300 KiB); a patient client (sends once the shell is reported ready) or an eager one (header and output at once, like curl -d @file); content = ASCII tokens, valid 2/3/4-byte UTF-8 characters, unfinished sequences, bytes that are never UTF-8 and arbitrary bytes (all values but ESC and CR), cut into TLS writes anywhere incl. inside a character and byte by byte; the stream ends by itself right after an unfinished multibyte sequence / after non-UTF-8 bytes / after a complete multibyte character / after ASCII, or the connection is dropped (for a declared length: before the promised length). The clean terminal text between the end of the callback help that follows the previous shell and this shell's first close/gone notice, minus the attach notices and the notice's own timestamp+address prefix, with CR LF read as LF, must equal the sent bytes exactly at a natural end and be a prefix of them after a drop; no token of the shell may appear after its notice. Bytes withheld from one shell's display would surface in the next shell's region and fail its comparison. " +
+		"Engine ptynb (environment: the terminal's open file description is non-blocking and the terminal is busy): the real binary is started on an ordinary blocking pty; after it has printed its banner (before the shell attaches, or once the shell is reported ready) the harness sets O_NONBLOCK on the pty slave it holds, i.e. on the very open file description the program has as stdin/stdout/stderr, as a sibling process sharing the terminal (ssh, a multiplexer, a wrapper) does; a patient shell on /i+/o or /io (chunked) then sends 80-200 KB of numbered tokens (long lines, short lines or both) in PRNG-sized TLS writes while the terminal is not read at all until the flood is over, or is drained in short pulses, or is read all the time; then the terminal is drained. At three moments (shell still attached; after its stream ended by itself; after Ctrl+D) the terminal text after the callback help, minus the attach notices, must be a prefix of the sent bytes (LF shown as CR LF), possibly followed by (a part of) the prompt or by text of the program that contains nothing of the shell's output; any byte of the shell shown twice, left out in the middle or out of order is a violation; so is a crash (death by signal, panic). The child's /proc/PID/fdinfo/1 confirms the non-blocking flag; sessions whose display stopped short of what was sent although the terminal was drained are counted (a terminal write was refused or taken in part) and floored"
 	r.Assumptions = []string{"position code has period > 64 KiB so any drop/duplication/reorder changes a byte at a known offset",
 		"ptyb: the line editor writes Plain chunks to the raw-mode terminal unchanged except LF -> CR LF, and removes/redraws the prompt around each write with escape sequences that ptyx's clean text undoes; payloads contain no ESC (would start an escape sequence for ptyx) and no CR (so that CR LF -> LF inverts the mapping exactly)",
 		"ptyb: operator notices have the form [time ][address] text; a region whose end cannot be told from the start of the end notice is reported inconclusive, not violated; the harness's shells attach only after the program has finished re-printing the callback help (printed by another goroutine, it could otherwise legitimately interleave with output)",
-		"ptyb: how long a patient client waits for the ready notice (3 s at most) only shapes the schedule; verdicts depend on the final terminal text only, except the bounded (30 s) waits for the ready notice before a connection is dropped (a connection dropped before it was attached promises nothing, so dropping clients drop once attached) and for the gone notice after the stream has ended"}
+		"ptyb: how long a patient client waits for the ready notice (3 s at most) only shapes the schedule; verdicts depend on the final terminal text only, except the bounded (30 s) waits for the ready notice before a connection is dropped (a connection dropped before it was attached promises nothing, so dropping clients drop once attached) and for the gone notice after the stream has ended",
+		"ptynb: once a write to the terminal fails (EAGAIN, possibly after a part of the buffer was taken) the unchanged program ends its output handling and shows nothing more of the shell; the statement says nothing about a terminal that refuses writes, so in this environment completeness at a natural end is NOT demanded and only the prefix / nothing-twice / nothing-reordered rule is judged, at whatever moments the harness looks (the waits for the terminal to fall quiet only choose those moments); the prompt is the default \"> \" and the payload contains neither of its characters next to each other, no ESC and no CR; stdin shares the description, so the program may also end by itself with a read error: that is not judged"}
 	n := r.N(2500, 40000)
 	if r.WantEngine("script") {
 		mon.Parallel(n, runtime.NumCPU(), func(i int) {
@@ -278,6 +280,9 @@ func Run(r *mon.Run) {
 	}
 	if r.WantEngine("ptyb") {
 		ptybSessions(r)
+	}
+	if r.WantEngine("ptynb") {
+		ptynbSessions(r)
 	}
 	r.Floor("bytes_displayed", 100000)
 	r.Floor("natural_ends", 100)
